@@ -22,7 +22,7 @@ def run(tier):
     outs, stats, rs = [], {}, []
     def add(tag, size, prods, sample=None, **kw):
         o, r = langlib.corpus(tag, size, prods, ("I",), sample=None, **kw)
-        o = [x for x in o if interesting(x)]
+        o = sorted((x for x in o if interesting(x)), key=lambda x: json.dumps(x["p"]))
         if sample and len(o) > sample:
             import random
             o = random.Random(seed).sample(o, sample)
